@@ -13,6 +13,9 @@ type Watcher struct {
 	Log []string
 	// OnNotify runs at every notification (the synchronous bus of C15).
 	OnNotify func(entry string)
+	// Fail makes every notification report an error (after it has been recorded): the management
+	// call then returns (true, err) although the change has been applied
+	Fail     bool
 	callback func(string)
 }
 
@@ -20,6 +23,9 @@ func (w *Watcher) note(entry string) error {
 	w.Log = append(w.Log, entry)
 	if w.OnNotify != nil {
 		w.OnNotify(entry)
+	}
+	if w.Fail {
+		return fmt.Errorf("injected watcher failure")
 	}
 	return nil
 }
